@@ -617,12 +617,14 @@ func profileForTier(prop string) *Profile {
 		p.PBurst = 0.05
 		p.TakeRates = []string{"0", "0.000001", "0.001", "0.25", "0.5", "0.99"}
 	case "C17":
+		p.PGhost = 0.06
 		p.ParamsWild = true
 		p.W["gov_params"] = 8
 		p.W["gov_update"] = 5
 		p.Dust = 0.3
 		p.PHalt = 0.08
 	case "C06", "C07", "C08":
+		p.PGhost = 0.06
 		p.PFlood = 0.04
 		p.PBurst = 0.15
 		p.PSlash, p.PEvidence, p.PDowntime = 0.18, 0.06, 0.05
@@ -632,6 +634,7 @@ func profileForTier(prop string) *Profile {
 		p.PBoundary = 0.3
 		p.MaxBlocks = 45
 	case "C02":
+		p.PGhost = 0.06
 		p.PFlood = 0.04
 		p.PBurst = 0.12
 		p.W["undelegate"] = 30
@@ -640,6 +643,7 @@ func profileForTier(prop string) *Profile {
 		p.PBoundary = 0.4
 		p.PSlash = 0.1
 	case "C19":
+		p.PGhost = 0.06
 		p.PBurst = 0.12 // entries that tie on sort keys: same-block exits of several delegators
 		p.PSlash = 0.1
 		p.PCrash = 0.08
@@ -649,6 +653,7 @@ func profileForTier(prop string) *Profile {
 		p.W["claim"] = 14
 		p.MinAssets = 3
 	case "C18":
+		p.PGhost = 0.06
 		p.PFlood = 0.05
 		p.PBurst = 0.1
 		p.PExport = 0.12
@@ -685,6 +690,7 @@ func profileForTier(prop string) *Profile {
 		p.W["donate"] = 6
 		p.MaxBlocks = 40
 	case "C11":
+		p.PGhost = 0.06
 		p.Inflation = 0 // minting disabled: the expected net supply is closed-form
 		p.W["n_delegate"], p.W["n_undelegate"], p.W["n_redelegate"] = 10, 10, 4
 		p.W["donate"] = 6
@@ -825,14 +831,16 @@ func (g *genState) drain(bi int) {
 func (g *genState) ghost(bi int) {
 	r := g.rng
 	var v int
-	if g.extra < MaxExtraValidators && r.Chance(0.7) {
+	if g.extra < MaxExtraValidators && (r.Chance(0.7) || g.p.PSlash == 0) {
 		v = len(g.cfg.Validators) + g.extra
 		g.extra++
 		g.nvals = len(g.cfg.Validators) + g.extra
 		g.futureOps[bi] = append(g.futureOps[bi], Op{K: "create_validator", Val: v, Amt: &Amt{Abs: []string{"1", "1000", "1000000"}[r.Intn(3)]}})
 	} else {
 		v = r.Intn(g.nvals)
-		g.futureSlash[bi] = append(g.futureSlash[bi], Op{K: "slash_direct", Val: v, Fraction: slashFractions[r.Intn(len(slashFractions))]})
+		if g.p.PSlash > 0 { // profiles without slashes (C13) keep to validators created outside the bonded set
+			g.futureSlash[bi] = append(g.futureSlash[bi], Op{K: "slash_direct", Val: v, Fraction: slashFractions[r.Intn(len(slashFractions))]})
+		}
 	}
 	who, d := r.Intn(g.cfg.Delegators), r.Intn(len(g.cfg.Assets))
 	at := bi + r.Intn(2)
